@@ -257,10 +257,20 @@ class Kernel:
         if ok is None:
             ok = co.co_filename.startswith(self.trace_root)
             self._code_cache[co] = ok
+        if ok and self.granularity == "opcode":
+            frame.f_trace_opcodes = True
         return self._local if ok else None
 
     def _local(self, frame, event, arg):
+        if event == "opcode":
+            # sub-statement pre-emption (granularity 'opcode'): between any two bytecodes of traced code
+            self.switch(f"{os.path.basename(frame.f_code.co_filename)}:{frame.f_lineno}+{frame.f_lasti}")
+            return self._local
+        if event == "call" and self.granularity == "opcode":
+            frame.f_trace_opcodes = True
         if event == "line":
+            if self.granularity == "opcode":
+                frame.f_trace_opcodes = True
             fn = frame.f_code.co_filename
             ln = frame.f_lineno
             a = self.anchors.get((fn, ln))
